@@ -3,7 +3,8 @@
     macroblock body, record — is bounded by [mbH*mbW + 2*mbH + n]; between two such steps
     every process only moves forward through the phases of waitFor / signal, except that a
     Broadcast sends the sleepers of its row back to [PWoken] — and a Broadcast is paid for
-    by the signaller leaving [signal].  No process can spin: a blocked process (mutex
+    by the signaller leaving [signal].  The macroblock body is two steps (read the
+    neighbour contexts, then compute and write); only the second is abstract progress.  No process can spin: a blocked process (mutex
     taken, asleep in cond.Wait) is DISABLED, not busy-waiting.
 
     Together with deadlock freedom (ConcDetailedLive.v) this is liveness in its strongest
@@ -17,16 +18,16 @@ Import ListNotations.
 
 Definition wrank (ph : wph) : nat :=
   match ph with
-  | PFast => 9 | PInc => 8 | PLock => 7 | PWoken => 6 | PCheck => 5
-  | PWaitCall => 4 | PSleep => 3 | PUnlock => 2 | PDec => 1
+  | PFast => 10 | PInc => 9 | PLock => 8 | PWoken => 7 | PCheck => 6
+  | PWaitCall => 5 | PSleep => 4 | PUnlock => 3 | PDec => 2
   end.
 Definition srank (sp : sph) : nat :=
   match sp with QStore => 5 | QLoad => 4 | QLock => 3 | QUnlock => 2 | QBcast => 1 end.
 
-Definition W2 (n : nat) : nat := 3 * (n + 1) + 10.
-Definition W1 (n : nat) : nat := 5 * W2 n + 10.
+Definition W2 (n : nat) : nat := 3 * (n + 1) + 11.
+Definition W1 (n : nat) : nat := 5 * W2 n + 11.
 
-Definition run_bound (mbW mbH n : nat) : nat := W1 n * (mbH * mbW + 2 * mbH + n) + 9.
+Definition run_bound (mbW mbH n : nat) : nat := W1 n * (mbH * mbW + 2 * mbH + n) + 10.
 
 Section Term.
   Variable V : Type.
@@ -47,6 +48,7 @@ Section Term.
     match w with
     | DWait _ _ _ _ ph => wrank ph
     | DSig _ _ _ _ sp => W2 n * srank sp
+    | DCompute _ _ _ _ => 1                      (* the read sub-step is still to come *)
     | _ => 0
     end.
   Definition valr (r : dr) : nat := match r with RWait ph => wrank ph | RReady => 0 end.
@@ -78,7 +80,7 @@ Section Term.
 
   Lemma val_wake row w : val (wake_w V row w) <= val w + 3.
   Proof.
-    destruct w as [| |y x tl l ph|y x tl l|y x tl l sp]; cbn; try lia.
+    destruct w as [| |y x tl l ph|y x tl l|y x tl l t0 tr0|y x tl l sp]; cbn; try lia.
     destruct ph; cbn; try lia. destruct (y =? S row); cbn; lia.
   Qed.
 
@@ -88,16 +90,16 @@ Section Term.
   Lemma nex_wake row ws : nex (map (wake_w V row) ws) = nex ws.
   Proof.
     induction ws as [|h tl IH]; cbn; [reflexivity|]. rewrite IH. f_equal.
-    destruct h as [| |y x tl0 l ph|y x tl0 l|y x tl0 l sp]; cbn; try reflexivity.
+    destruct h as [| |y x tl0 l ph|y x tl0 l|y x tl0 l t0 tr0|y x tl0 l sp]; cbn; try reflexivity.
     destruct ph; cbn; try reflexivity. destruct (y =? S row); reflexivity.
   Qed.
 
   Lemma nex_abs ws : nexited V (map (abs_w V mbW) ws) <= length ws.
   Proof. pose proof (nexited_le V mbW HmbW (map (abs_w V mbW) ws)) as H. now rewrite map_length in H. Qed.
 
-  Lemma val_start_mb y x tl l : val (start_mb V y x tl l) <= 9.
+  Lemma val_start_mb y x tl l : val (start_mb V y x tl l) <= 10.
   Proof. unfold start_mb. destruct (y =? 0); cbn; lia. Qed.
-  Lemma val_sig_exit y x tl l : val (sig_exit V mbW y x tl l) <= 9.
+  Lemma val_sig_exit y x tl l : val (sig_exit V mbW y x tl l) <= 10.
   Proof. unfold sig_exit. destruct (S x <? mbW); [apply val_start_mb|cbn; lia]. Qed.
   Lemma ex_start_mb y x tl l : dw_exited V (start_mb V y x tl l) = false.
   Proof. unfold start_mb. destruct (y =? 0); reflexivity. Qed.
@@ -121,7 +123,7 @@ Section Term.
   Lemma wait_step_rank d nw m me nd ph :
     match wait_step d nw m me nd ph with
     | Some (WCont ph' _ _) => wrank ph' + 1 <= wrank ph
-    | Some (WRet _ _) => 1 <= wrank ph
+    | Some (WRet _ _) => 2 <= wrank ph
     | None => True
     end.
   Proof.
@@ -146,7 +148,7 @@ Section Term.
       destruct (nth_error (d_workers V s) i) as [w|] eqn:Hw; [|discriminate].
       assert (Habsw : nth_error (workers V (abs s)) i = Some (abs_w V mbW w))
         by (cbn; rewrite nth_error_map, Hw; reflexivity).
-      destruct w as [| |y x tl l ph|y x tl l|y x tl l sp]; try discriminate.
+      destruct w as [| |y x tl l ph|y x tl l|y x tl l t0 tr0|y x tl l sp]; try discriminate.
       + (* DIdle *)
         destruct (d_next V s <? mbH); inversion Hs; subst s'; clear Hs; right; unfold prog, pot, setw; cbn [d_adone d_next d_workers d_recRow d_rec].
         * pose proof (sumval_set_nth _ i _ (start_mb V (d_next V s) 0 v0 v0) Hw) as H1.
@@ -163,13 +165,20 @@ Section Term.
           cbn in H1, H2. split; lia.
         * pose proof (sumval_set_nth _ i _ (DCompute y x tl l) Hw) as H1. pose proof (nex_set_nth _ i _ (DCompute y x tl l) Hw) as H2.
           cbn in H1, H2. split; lia.
-      + (* DCompute: abstract progress *)
+      + (* DCompute: the read sub-step *)
+        inversion Hs; subst s'; clear Hs. left. unfold prog, pot, setw; cbn [d_adone d_next d_workers d_recRow d_rec].
+        pose proof (sumval_set_nth _ i _ (DHold y x tl l (snd (d_top V s x)) (if S x <? mbW then snd (d_top V s (S x)) else v0)) Hw) as H1.
+        pose proof (nex_set_nth _ i _ (DHold y x tl l (snd (d_top V s x)) (if S x <? mbW then snd (d_top V s (S x)) else v0)) Hw) as H2.
+        cbn [val dw_exited] in H1, H2. split; lia.
+      + (* DHold: the write sub-step — abstract progress *)
         inversion Hs; subst s'; clear Hs. right.
         destruct (i_worker V v0 f mbW mbH n (abs s) HL1 i y x tl l Habsw) as (Hy & _ & Hadone & _).
         cbn [done nextRow ConcDetailed.abs] in Hadone, Hy. pose proof (i_next V v0 f mbW mbH n (abs s) HL1) as Hnx. cbn [nextRow ConcDetailed.abs] in Hnx.
         unfold prog, pot, setw; cbn [d_adone d_next d_workers d_recRow d_rec].
-        set (w' := DSig y x (snd (d_top V s x)) (f y x tl (snd (d_top V s x)) (if S x <? mbW then snd (d_top V s (S x)) else v0) l) QStore).
-        pose proof (sumval_set_nth _ i _ w' Hw) as H1. pose proof (nex_set_nth _ i _ w' Hw) as H2. unfold w' in H1, H2. cbn [val dw_exited srank] in H1, H2. fold w' in H1, H2.
+        set (w' := DSig y x t0 (f y x tl t0 tr0 l) QStore).
+        pose proof (sumval_set_nth _ i _ w' Hw) as H1.
+        pose proof (nex_set_nth _ i _ w' Hw) as H2.
+        unfold w' in H1, H2. cbn [val dw_exited srank] in H1, H2. fold w' in H1, H2.
         rewrite <- Hadone. rewrite sumf_upd_succ by lia. unfold W1. split; lia.
       + (* DSig *)
         destruct sp.
@@ -241,7 +250,7 @@ Section Term.
         + rewrite Nat.mul_succ_r in Hle. lia. }
     intros s Hr. destruct (G (dinit n) (dinit_inv V v0 f mbW mbH HmbW n) s Hr) as [HD Hle].
     pose proof (prog_bound s HD) as Hb.
-    assert (Hp0 : pot (dinit n) = 9).
+    assert (Hp0 : pot (dinit n) = 10).
     { unfold pot. cbn. clear. induction n as [|k IH]; cbn; [reflexivity|exact IH]. }
     rewrite Hp0 in Hle. unfold run_bound.
     assert (W1 n * prog s <= W1 n * (mbH * mbW + 2 * mbH + n)) by (apply Nat.mul_le_mono_l; exact Hb).
